@@ -343,6 +343,9 @@ def rule_aliasclosed(ctx, prop: str) -> RuleResult:
                             continue
                         if isinstance(n.value, ast.Constant):
                             continue  # a flag per window (is-a-window, seen, ...), not an alias map
+                        vtxt = ast.unparse(n.value)
+                        if vtxt.endswith((".type", ".mem", ".type.as_tensor")) and ".name" not in vtxt:
+                            continue  # a type / memory environment (what the window IS), not an alias map (what it is a window OF)
                         n_sites += 1
                         res.instances += 1
                         res.nontrivial += 1
